@@ -216,6 +216,28 @@ pub fn contexts() -> Vec<Ctx> {
         ("(?=(a)|(X))\\2", Box::new(move |x| Concat(vec![Look(b(Alt(vec![Node::group(la()), Node::group(x)])), false, false), Backref(2)]))),
         ("(?<=(X)|(.))(?(2)b|a)", Box::new(move |x| Concat(vec![Look(b(Alt(vec![Node::group(x), Node::group(Any(false))])), true, false), CondGroup(2, b(lb()), b(la()))]))),
         ("(?>(a)|(X))\\2?b", Box::new(move |x| Concat(vec![Atomic(b(Alt(vec![Node::group(la()), Node::group(x)]))), Repeat(b(Backref(2)), 0, Some(1), Mode::Greedy), lb()]))),
+        // a counted repeat as the WHOLE body of a committing construct: iteration k must be able
+        // to give characters back when iteration k+1 fails
+        ("(?>(?:\\bX){2})", Box::new(move |x| Atomic(b(Repeat(b(Concat(vec![Assert(A::WordB), x])), 2, Some(2), Mode::Greedy))))),
+        ("(?=(?:(?!b)X){2,})[ab]+", Box::new(move |x| Concat(vec![Look(b(Repeat(b(Concat(vec![Look(b(lb()), false, true), x])), 2, None, Mode::Greedy)), false, false), Repeat(b(Node::class("[ab]")), 1, None, Mode::Greedy)]))),
+        ("(?>(?:(a)\\1|X){1,2})b", Box::new(move |x| Concat(vec![Atomic(b(Repeat(b(Alt(vec![Concat(vec![Node::group(la()), Backref(1)]), x])), 1, Some(2), Mode::Greedy))), lb()]))),
+        // a group that is only TESTED by a condition, inside an equal-width alternation
+        ("(?:.|(X))(?(1)a|b)", Box::new(move |x| Concat(vec![Alt(vec![Any(false), Node::group(x)]), CondGroup(1, b(la()), b(lb()))]))),
+        ("(?>(X)*)(?(1)b|c)", Box::new(move |x| Concat(vec![Atomic(b(Repeat(b(Node::group(x)), 0, None, Mode::Greedy))), CondGroup(1, b(lb()), b(Node::lit("c")))]))),
+        // positive look-arounds nested two and three deep, evaluated at different offsets
+        ("(?=a(?=X))[ab]", Box::new(move |x| Concat(vec![Look(b(Concat(vec![la(), Look(b(x), false, false)])), false, false), Node::class("[ab]")]))),
+        ("(?<=(?=X)[ab])", Box::new(move |x| Look(b(Concat(vec![Look(b(x), false, false), Node::class("[ab]")])), true, false))),
+        ("(?<=(?=(?=X)a).)b?", Box::new(move |x| Concat(vec![Look(b(Concat(vec![Look(b(Concat(vec![Look(b(x), false, false), la()])), false, false), Any(false)])), true, false), Repeat(b(lb()), 0, Some(1), Mode::Greedy)]))),
+        // a bounded repeat with a hard body and an easy variable tail as the LAST element of a
+        // committing construct
+        ("(?>(?:(?!c)(a|ab)){2})X", Box::new(move |x| Concat(vec![Atomic(b(Repeat(b(Concat(vec![Look(b(Node::lit("c")), false, true), Node::group(Alt(vec![la(), ab()]))])), 2, Some(2), Mode::Greedy))), x]))),
+        ("(?=(?:X(a|ab)){2})\\1?", Box::new(move |x| Concat(vec![Look(b(Repeat(b(Concat(vec![x, Node::group(Alt(vec![la(), ab()]))])), 2, Some(2), Mode::Greedy)), false, false), Repeat(b(Backref(1)), 0, Some(1), Mode::Greedy)]))),
+        // references from inside a nested group to an OUTER group that is still open, in a loop
+        ("(?:((X|a)b)c)+", Box::new(move |x| Repeat(b(Concat(vec![Node::group(Concat(vec![Node::group(Alt(vec![x, la()])), lb()])), Node::lit("c")])), 1, None, Mode::Greedy))),
+        ("(?:a((X)|))+", Box::new(move |x| Repeat(b(Concat(vec![la(), Node::group(Alt(vec![Node::group(x), Empty]))])), 1, None, Mode::Greedy))),
+        // an optional group that ends in a negative look-around (its Split branch and the
+        // look-around's own branch sit next to each other on the stack)
+        ("a(?:X|(?!b))?b", Box::new(move |x| Concat(vec![la(), Repeat(b(Alt(vec![x, Look(b(lb()), false, true)])), 0, Some(1), Mode::Greedy), lb()]))),
     ];
     v.shrink_to_fit();
     v
@@ -242,6 +264,9 @@ pub fn g_contexts(base: &[Node]) -> Vec<Node> {
         out.push(Concat(vec![Alt(vec![ContG, la()]), x.clone()]));
         out.push(Concat(vec![x.clone(), KeepOut, lb()]));
         out.push(Concat(vec![Repeat(b(Concat(vec![x.clone(), KeepOut])), 0, Some(1), Mode::Greedy), lb()]));
+        // alternatives pinned to different offsets by `^` inside look-behinds: more than one match
+        out.push(Alt(vec![Concat(vec![Assert(A::StartText), x.clone()]), Concat(vec![Look(b(Concat(vec![Assert(A::StartText), x.clone()])), true, false), Node::class("[ab]")])]));
+        out.push(Alt(vec![Assert(A::StartText), Look(b(Concat(vec![Assert(A::StartText), x.clone()])), true, false)]));
     }
     out
 }
